@@ -39,7 +39,7 @@ MAX_V_PER_SIG_PER_TASK = 2
 TIERS = {
     "quick": dict(
         v2_bound=5, v2_dyn_all=5, v2_dyn_stride={}, v1_bound=6, kmax=3,
-        rich_dyn=True, pairs=False, files_stride=1, depth=4, max_steps=120, budget_s=55,
+        rich_dyn=True, pairs=False, files_stride=1, depth=4, max_steps=120, budget_s=70,
     ),
     "thorough": dict(
         v2_bound=7, v2_dyn_all=5, v2_dyn_stride={6: 16, 7: 256}, v1_bound=7, kmax=4,
@@ -302,7 +302,8 @@ def _chunks(n, size):
 def tasks(tier):
     t = TIERS[tier]
     dynp = {"depth": t["depth"], "max_steps": t["max_steps"]}
-    out = [("v2cur", dynp), ("v1rich",)]
+    # the curated programs are few: longer histories (two loop iterations)
+    out = [("v2cur", {"depth": max(6, t["depth"]), "max_steps": 1500}), ("v1rich",)]
     files = F.all_co_files()
     for i, rel in enumerate(files):
         if i % t["files_stride"] == 0:
@@ -407,7 +408,9 @@ def run(rep, tier):
         "return | break | continue}; rich statements x contexts and all ordered pairs",
         "abstract state = (position, failure-handler stack, open scopes, registered fork uids); Goto with the "
         "constant expression \"True\" is always taken, any other expression may go both ways; scopes / "
-        "handlers are tracked per path (heads of one flow are not modelled jointly)",
+        "handlers are tracked per path (heads of one flow are not modelled jointly); because EndScope removes "
+        "the scope from every head of the flow, a concrete head may hold a subset of the abstract scope set "
+        "(counted as dyn_moves_with_scope_closed_by_other_head)",
         "scopes and handlers must be closed where the flow ends by running off its last element; ends via "
         "`return` / uncaught `abort` are not constrained",
         "binding: every assignment to FlowHead.position made by run_to_completion during all event histories "
